@@ -172,6 +172,11 @@ func (e *Engine) CreateCollection(ctx context.Context, username, name, documentI
 			return err
 		}
 
+		err = e.validateFieldDepth(field.Name)
+		if err != nil {
+			return err
+		}
+
 		if field.Name == documentIdFieldName {
 			return fmt.Errorf("%w: id field name '%s' should not be specified", ErrIllegalArguments, field.Name)
 		}
@@ -482,6 +487,11 @@ func (e *Engine) AddField(ctx context.Context, username, collectionName string, 
 		return err
 	}
 
+	err = e.validateFieldDepth(field.Name)
+	if err != nil {
+		return err
+	}
+
 	sqlType, err := protomodelValueTypeToSQLValueType(field.Type)
 	if err != nil {
 		return err
@@ -521,6 +531,15 @@ func (e *Engine) AddField(ctx context.Context, username, collectionName string, 
 
 	err = sqlTx.Commit(ctx)
 	return mayTranslateError(err)
+}
+
+// validateFieldDepth refuses a field path with more levels than structValueFromFieldPath resolves:
+// such a field would be accepted and its column never filled
+func (e *Engine) validateFieldDepth(fieldName string) error {
+	if e.maxNestedFields > 0 && strings.Count(fieldName, documentFieldPathSeparator)+1 > e.maxNestedFields {
+		return fmt.Errorf("%w: field '%s' is nested deeper than %d levels", ErrIllegalArguments, fieldName, e.maxNestedFields)
+	}
+	return nil
 }
 
 func (e *Engine) RemoveField(ctx context.Context, username, collectionName string, fieldName string) error {
